@@ -186,7 +186,7 @@ pub fn gen_case(r: &mut Rng, tier: &str, c04: bool, big_ok: bool) -> Case {
     let d = if r.chance(1, 2) { 2 } else { 3 };
     let big = big_ok && r.chance(1, if tier == "thorough" { 250 } else { 400 });
     let n = if big {
-        *r.pick(&[8192usize, 8193, 9000, 12000])
+        *r.pick(&[8192usize, 8193, 9000])
     } else {
         match r.below(12) {
             0 => r.range(0, 2) as usize,
@@ -210,7 +210,7 @@ pub fn gen_case(r: &mut Rng, tier: &str, c04: bool, big_ok: bool) -> Case {
     let (pname, pts) = gen_points(r, d, n, arb && fam < 7, fam);
     let (_wname, ws) = gen_weights(r, n);
     let k = if big {
-        r.range(1, 3) as usize
+        r.range(1, 2) as usize
     } else if c04 {
         r.range(1, 6) as usize
     } else {
@@ -226,7 +226,7 @@ pub fn gen_case(r: &mut Rng, tier: &str, c04: bool, big_ok: bool) -> Case {
     let rib = !big && r.chance(1, 4);
     let mut plen = n;
     let mut ws = ws;
-    if !rib && !big && r.chance(1, 30) {
+    if !big && r.chance(1, 30) {
         // malformed stream (C20 clause): lengths differ
         match r.below(3) {
             0 => plen = n + 1 + r.below(2) as usize,
@@ -322,10 +322,13 @@ pub fn run_case(c: &Case, idx: usize) -> Outcome {
         let (res, model_pts) = go(pool);
         return Outcome { res, model_pts, pool, pool_diffs: 0, runs: 1 };
     }
+    // big inputs: two pool sizes; every 4th small case: all six; otherwise 1 thread + two rotating sizes
     let pools: Vec<usize> = if c.pts.len() >= 4096 {
         vec![POOLS[idx % POOLS.len()], POOLS[(idx + 3) % POOLS.len()]]
-    } else {
+    } else if idx % 4 == 0 {
         POOLS.to_vec()
+    } else {
+        vec![1, POOLS[1 + idx % 5], POOLS[1 + (idx / 5 + 2) % 5]]
     };
     let (first, model_pts) = go(pools[0]);
     let mut out = Outcome { res: first, model_pts, pool: pools[0], pool_diffs: 0, runs: 1 };
@@ -359,8 +362,9 @@ fn ulp32(x: f32) -> f64 {
     2f64.powi(e - 23)
 }
 
-/// Class of the C04 defects, decided from the points the search runs on
-/// (f32 images), in this order of precedence.
+/// Float-edge class of the input (the three C04 defects repaired by 241da30,
+/// a287019, 6449881 lived here), decided from the points the search runs on
+/// (f32 images); informational: recorded in the case JSON and counted.
 pub fn kf_class(pts: &[Vec<f64>], d: usize) -> Option<&'static str> {
     let mut tie = false;
     let mut adj = false;
@@ -449,7 +453,7 @@ pub fn json_case(c: &Case, o: &Outcome, kf: Option<&str>) -> String {
         s.push_str(&format!(",\"rotated_points\":{}", show(&o.model_pts)));
     }
     if let Some(k) = kf {
-        s.push_str(&format!(",\"kf\":\"{}\"", k));
+        s.push_str(&format!(",\"edge_class\":\"{}\"", k));
     }
     s.push('}');
     s
@@ -508,7 +512,7 @@ pub fn drive(c04: bool, header: &str, run_fn: &str) {
         }
     }
     w.finish(&format!(
-        "\"hangs\":{},\"panics\":{},\"pool_diffs\":{},\"implementation_runs\":{},\"kf_tagged_cases\":{},\"big_cases\":{}",
+        "\"hangs\":{},\"panics\":{},\"pool_diffs\":{},\"implementation_runs\":{},\"float_edge_cases\":{},\"big_cases\":{}",
         hangs, panics, pool_diffs, runs, kf_cases, bigs
     ));
 }
